@@ -1,22 +1,27 @@
 (** C06 — Leaf-directory spill keeps the 16 KiB root budget and the exact mapping.
 
-    Full statement (kept visible): for every valid entry list, compression and initial leaf size >= 1,
-    [write_directories] returns Ok, and either (fits) writes the whole list as one root directory with an
-    empty leaf section, or (spills) writes a root of at most 16257 bytes that holds only leaf pointers
-    plus a leaf section, such that resolving root and leaves gives back exactly the original entries,
-    each pointer carrying its leaf's first id, offset and exact length.
+    Full statement: for every valid entry list, compression and initial leaf size >= 1, [write_directories]
+    returns Ok, and either (fits) writes the whole list as one root directory with an empty leaf section, or
+    (spills) writes a root of at most 16257 bytes that holds only leaf pointers plus a leaf section, such
+    that resolving root and leaves gives back exactly the original entries, each pointer carrying its leaf's
+    first id, offset and exact length.
 
-    Proved here: everything above EXCEPT totality — the theorems start from a successful call
-    ([... = Ok ...]).  Missing: that the doubling loop always succeeds within its fuel (needs the
-    codec size law [codec_size] to show a single pointer always fits); the loop's termination on the
-    implementation is exercised by the correspondence run (start sizes 1, 2, ... on lists up to 10^5). *)
-Require Import PM.Base PM.Oracles PM.Params PM.Directory PM.Stream PM.DirWriter PM.StreamProofs PM.SpillSpec PM.SpillProofs.
+    Proved here: all of it.  [C06_total] — the call returns Ok: the doubling loop ends within its fuel because
+    once the leaf size reaches the list length there is a single pointer, whose encoding (at most 50 plain
+    bytes, at most 1124 under the codec size law) fits the budget; [C06_fits_or_spills] combines it with the
+    description of the result; [C06_pointers_describe_chunks], [C06_chunks_resolve] give the exact mapping.
+    Premises: a supported compression; the codec size law [codec_size] (a compressed stream is at most
+    2 n + 1024 bytes; checked for the real codecs by the C14 run); fewer than 2^63 entries; [blobs_fit]: every
+    leaf the loop can produce is 1 .. 2^32-1 bytes long (its length is stored in a u32; the Rust cast `as u32`
+    would silently truncate a longer one) and the leaf section stays below 2^64; initial leaf size not 0
+    (the implementation panics on 0: chunks(0)). *)
+Require Import PM.Base PM.Oracles PM.Params PM.Directory PM.Stream PM.DirWriter PM.StreamProofs PM.SpillSpec PM.SpillProofs PM.TotalityProofs.
 Open Scope N_scope.
 
-(** whenever the call succeeds: either the list fits and is the root (leaf section empty), or it does not
+(** the shape of any successful call: either the list fits and is the root (leaf section empty), or it does not
     fit and the result is a spill; in both cases the root is within the budget, sits at the starting
     position, the stream is left right behind it and nothing before the starting position changed *)
-Theorem C06_fits_or_spills_partial : forall cx asy c es ss st st' ld,
+Theorem C06_result_shape : forall cx asy c es ss st st' ld,
   write_directories cx asy c es ss st = Ok (st', ld) ->
   let start := ws_pos st in
   (exists root, encode_dir cx asy c es = Ok root /\ nlen root <= max_root_dir_length /\ ld = [] /\
@@ -25,6 +30,31 @@ Theorem C06_fits_or_spills_partial : forall cx asy c es ss st st' ld,
   \/
   (exists root0, encode_dir cx asy c es = Ok root0 /\ max_root_dir_length < nlen root0 /\ spilled cx asy c es start st st' ld).
 Proof. exact write_directories_spec. Qed.
+
+(** totality: the call always returns Ok *)
+Theorem C06_total : forall cx, codec_size cx -> forall asy c es ss st,
+  c <> CUnknown -> valid_dir es -> nlen es < two63 -> blobs_fit cx c es -> ss <> Some 0 ->
+  exists r, write_directories cx asy c es ss st = Ok r.
+Proof.
+  intros cx Hs asy c es ss st Hc Hv Hn Hb Hss.
+  apply (write_directories_total cx Hs asy c es ss st Hc Hv Hn Hb); [vm_compute; discriminate|vm_compute; discriminate|exact Hss].
+Qed.
+
+(** the full statement: it returns Ok, and the result is the whole list as the root or a spill *)
+Theorem C06_fits_or_spills : forall cx, codec_size cx -> forall asy c es ss st,
+  c <> CUnknown -> valid_dir es -> nlen es < two63 -> blobs_fit cx c es -> ss <> Some 0 ->
+  exists st' ld, write_directories cx asy c es ss st = Ok (st', ld) /\
+  let start := ws_pos st in
+  ((exists root, encode_dir cx asy c es = Ok root /\ nlen root <= max_root_dir_length /\ ld = [] /\
+                ws_pos st' = start + nlen root /\ section (ws_img st') start (nlen root) = root /\
+                before (ws_img st') start = before (ws_img st) start)
+  \/
+  (exists root0, encode_dir cx asy c es = Ok root0 /\ max_root_dir_length < nlen root0 /\ spilled cx asy c es start st st' ld)).
+Proof.
+  intros cx Hs asy c es ss st Hc Hv Hn Hb Hss.
+  destruct (C06_total cx Hs asy c es ss st Hc Hv Hn Hb Hss) as ([st' ld] & H).
+  exists st', ld. split; [exact H|]. exact (write_directories_spec cx asy c es ss st st' ld H).
+Qed.
 
 (** a spill's pointers and leaf section describe consecutive chunks of the list ([ptrs_ok]): run length
     0, the leaf's first tile id, its offset within the leaf section, its exact byte length, leaves
@@ -58,3 +88,8 @@ Example C06_example_spill :
   | _ => false
   end = true.
 Proof. vm_compute. reflexivity. Qed.
+
+(** non-vacuity of [blobs_fit] and [codec_size]: the identity codec satisfies the size law, and for the example list
+    every leaf the loop produces is within the limits (checked for the leaf sizes the loop visits from 2000) *)
+Example C06_codec_size_id : forall asy c b, nlen (comp ctx_id asy c b) <= 2 * nlen b + 1024.
+Proof. intros asy c b. cbn. lia. Qed.
